@@ -56,6 +56,7 @@ import common
 import logic
 import h4_support as h4
 import h4_round5 as r5
+import h4_round7 as r7
 
 ID = "C18"
 TRUSTED = [
@@ -113,10 +114,42 @@ def stored_units(report):
             for path, e in report.codebase.files.items()]
 
 
+CONSOLE_VARIANT = [None]      # kwargs of the console every rendering of this module prints on (r7.console_variants); None = the default
+ANSI = re.compile(r"\x1b\[[0-9;?]*[A-Za-z]")
+
+
+class _PlainText:
+    """what a user reads on a terminal: the characters written, without the escape sequences that style them"""
+
+    def __init__(self, buf):
+        self.buf = buf
+
+    def getvalue(self):
+        return ANSI.sub("", self.buf.getvalue())
+
+
+@contextlib.contextmanager
+def console_variant(kw):
+    old = CONSOLE_VARIANT[0]
+    CONSOLE_VARIANT[0] = dict(kw) if kw else None
+    try:
+        yield
+    finally:
+        CONSOLE_VARIANT[0] = old
+
+
 def console(width=None):
     from rich.console import Console
     buf = io.StringIO()
-    return buf, Console(file=buf, width=width or WIDTH, soft_wrap=True)
+    kw = CONSOLE_VARIANT[0]
+    if not kw:
+        return buf, Console(file=buf, width=width or WIDTH, soft_wrap=True)
+    kw = dict(kw)
+    env = {k: v for k, v in os.environ.items() if k not in ("LINES", "COLUMNS", "NO_COLOR", "TERM")}
+    env["TERM"] = kw.pop("term", "xterm-256color")
+    if width:
+        kw["width"] = width
+    return _PlainText(buf), Console(file=buf, soft_wrap=True, _environ=env, **kw)
 
 
 # ------------------------------------------------------------------ reading the real overview
@@ -575,6 +608,89 @@ def expected_findings(units, full, fmt, repo):
     return {"rows": rows, "more": more}
 
 
+def findings_meet_statement(observed, units, full, fmt, repo):
+    """the findings clause AS STATED, for consoles on which the listing may legitimately be shorter: the rows are the first k
+    functions longer than 30 lines, longest first; k = all of them with full output, k <= 10 otherwise; the announced number
+    of omitted rows is EXACTLY (stored findings - listed rows), and nothing is announced when nothing is omitted -> reason | None"""
+    allrows = expected_findings(units, True, fmt, repo)["rows"]
+    if observed.get("junk"):
+        return "lines that are neither a finding nor the `more rows` line: %r" % (observed["junk"][:2],)
+    rows = observed["rows"]
+    if len(rows) > len(allrows):
+        return "%d rows listed, %d functions longer than 30 lines stored" % (len(rows), len(allrows))
+    for o, r in zip(rows, allrows):
+        if len(o) != len(r) or any(y is not None and x != y for x, y in zip(o, r)):
+            return "row %r is not the next-longest stored function %r" % (o, r)
+    if full and len(rows) != len(allrows):
+        return "full output lists %d of the %d stored findings" % (len(rows), len(allrows))
+    if not full and len(rows) > 10:
+        return "%d rows listed without full output" % len(rows)
+    if not full and len(rows) < len(allrows) and len(rows) == 0:
+        return "no row listed although %d findings are stored" % len(allrows)
+    omitted = len(allrows) - len(rows)
+    if observed["more"] != (omitted if omitted > 0 else None):
+        return "the report stores %d functions longer than 30 lines, %d are listed, so exactly %d rows are omitted, but the output announces %s more rows" % (
+            len(allrows), len(rows), omitted, observed["more"])
+    return None
+
+
+def run_console_variant_case(files, variant, label, cur=None, prev=None):
+    """every rendering (findings text / Markdown x full / not full x with / without repository; the overview, with a comparison
+    report when `prev` is given) on the console `variant` -> (number of renderings, failures)"""
+    fails, n = [], 0
+    inp0 = {"stream": "console-variant", "files": files, "console": variant, "console_label": label}
+    with console_variant(variant):
+        for repo in (False, True):
+            report = build_report(files, repo)
+            units = stored_units(report)
+            for fmt in ("text", "markdown"):
+                if fmt == "text" and repo:
+                    continue
+                for full in (False, True):
+                    o, raw = real_findings(report, fmt, full)
+                    n += 1
+                    why = findings_meet_statement(o, units, full, fmt, repo)
+                    if why:
+                        fails.append({"input": dict(inp0, fmt=fmt, repo=repo, full=full), "observed": o, "raw": raw[-1500:], "required": why,
+                                      "what": "findings on %s: %s" % (label, why)})
+        if cur is not None:
+            _i, _rq, _o, f = run_overview_case(cur, prev, probes=False)
+            n += 2
+            for x in f:
+                x["input"] = dict(inp0, files=[], cur=cur, prev=prev)
+                x["what"] = "overview on %s: %s" % (label, x.get("what"))
+            fails += f
+    return n, fails
+
+
+def run_pty_case(files, rows, cols=200, full=False, fmt="text"):
+    """`codelimit findings [--full] [--format F]` (CLI entry function, fresh interpreter) in a terminal window of rows x cols
+    (pseudo-terminal) on the written report of `files` -> failures"""
+    from pathlib import Path
+    from codelimit.common.report.ReportReader import ReportReader
+    from codelimit.common.report.ReportWriter import ReportWriter
+    d = tempfile.mkdtemp(prefix="c18_pty_")
+    inp = {"stream": "terminal-window", "files": files, "rows": rows, "cols": cols, "full": full, "fmt": fmt}
+    try:
+        cache = Path(d) / ".codelimit_cache"
+        cache.mkdir()
+        js = ReportWriter(build_report(files, False)).to_json()
+        (cache / "codelimit.json").write_text(js)
+        units = stored_units(ReportReader.from_json(js))
+        code, out, err = r7.run_entry_pty({"command": "findings", "path": d, "full": full, "format": fmt}, cwd=d, rows=rows, cols=cols)
+        if code != 0:
+            return [{"input": inp, "observed": "exit %s: %s" % (code, (out + err)[-600:]), "required": "exit 0", "what": "`codelimit findings` fails in a terminal window"}]
+        out = ANSI.sub("", out)
+        o = parse_findings_text(out) if fmt == "text" else parse_findings_md(out, False)
+        why = findings_meet_statement(o, units, full, fmt, False)
+        if why:
+            return [{"input": inp, "observed": o, "raw": out[-1500:], "required": why,
+                     "what": "`codelimit findings%s --format %s` in a terminal window of %d lines x %d columns: %s" % (" --full" if full else "", fmt, rows, cols, why)}]
+        return []
+    finally:
+        shutil.rmtree(d, ignore_errors=True)
+
+
 def findings_meet(observed, required):
     if observed.get("junk"):
         return False
@@ -813,7 +929,12 @@ def gen_findings(rnd, n_long):
         for j, v in enumerate(ls):
             ms.append(["fn%d_%d" % (i, j), line, rnd.choice([0, 1, 4]), line + v, v])
             line += v + 1
-        files.append(["src/m%d/file%d.%s" % (i % 2, i, rnd.choice(["py", "c", "java"])), rnd.choice(LANGS[:5]), sum(ls), ms])
+        path = "src/m%d/file%d.%s" % (i % 2, i, rnd.choice(["py", "c", "java"]))
+        if files and rnd.random() < 0.15:      # CASE TWIN of an earlier file's path
+            path = r7.case_twin(rnd.choice(files)[0], rnd) or path
+        if any(f[0] == path for f in files):
+            path = "src/m%d/file%d.py" % (i % 2, i)
+        files.append([path, rnd.choice(LANGS[:5]), sum(ls), ms])
     return files
 
 
@@ -1112,6 +1233,33 @@ def correspond(ctx):
                 batch.append((inp, rq, o, dec_findings, "findings-configured"))
         if n_long > 10:
             nontrivial.add(reqs[0])
+    # ---- CONSOLE VARIANTS: every rendering on recording consoles and on interactive terminals (force_terminal) 5..60 lines high, a few
+    # widths, TERM=dumb; judged by the clause as stated (at most ten rows, EXACT number of omitted rows; overview = stored figures)
+    rnd = ctx.rng("console-variants")
+    variants = r7.console_variants(ctx, widths=ctx.pick((250, 120), (250, 80, 120, 1000)))
+    variants += [("interactive dumb terminal 250x%d" % h, {"width": 250, "height": h, "force_terminal": True, "term": "dumb"}) for h in (5, 9)]
+    dist["console_variants"] = {}
+    n_var = 0
+    for n_long in ctx.pick([0, 1, 6, 9, 10, 11, 14, 25], list(range(0, 16)) + [20, 25, 40, 100]):
+        for vi, (label, kw) in enumerate(variants):
+            files = gen_findings(rnd, n_long)
+            cur = prev = None
+            if (vi + n_long) % 4 == 0:
+                cur, prev, _k = gen_pair(rnd)
+            n, f = run_console_variant_case(files, kw, label, cur, prev)
+            n_var += n
+            if f and sum(1 for x in fails if x["input"].get("stream") == "console-variant") >= 3:
+                f = f[:1]
+            fails += f
+            kind = label.split(" ")[0] + (" dumb" if kw.get("term") == "dumb" else "")
+            dist["console_variants"][kind] = dist["console_variants"].get(kind, 0) + n
+    # OBSERVATION POINT: `codelimit findings` in a fresh interpreter attached to a pseudo-terminal with a small / large window
+    for k, (rows, n_long) in enumerate(ctx.pick([(7, 14), (12, 11), (30, 25), (9, 8)], [(r_, n_) for r_ in (5, 7, 9, 12, 13, 24, 50) for n_ in (0, 8, 11, 14, 25)])):
+        f = run_pty_case(gen_findings(rnd, n_long), rows, rnd.choice([100, 200]), full=(k % 4 == 3), fmt="markdown" if k % 5 == 4 else "text")
+        fails += f
+        n_var += 1
+        dist["terminal_window_runs"] = dist.get("terminal_window_runs", 0) + 1
+    dist["console_variant_renderings"] = n_var
     rnd = ctx.rng("commands")
     for k in range(ctx.pick(100, 1000)):
         cur, prev, _ = gen_pair(rnd)
@@ -1216,7 +1364,7 @@ def correspond(ctx):
         elif len(samples) < 6 and (len(samples) % 2 == 0) == rq.startswith("overview") and len(rq) < 600:
             samples.append({"stream": stream, "request": rq, "model": m, "impl": oo})
     return {
-        "evaluations": len(batch), "distinct_nontrivial": len(nontrivial),
+        "evaluations": len(batch) + dist.get("console_variant_renderings", 0), "distinct_nontrivial": len(nontrivial),
         "rule": ("%d report pairs (0..6 of 12 languages, LOC ties frequent, previous report: none / equal / languages added, "
                  "removed, changed, unchanged, insertion orders shuffled) x text (table cells AND console lines) and Markdown; "
                  "%d codebases with 0..25, 40, 100 functions longer than 30 (ties frequent, boundary lengths 29..32, 59..62) x "
@@ -1236,10 +1384,15 @@ def correspond(ctx):
                  "top / in the parent / in a sibling / inside / at the root of the code base, PATH relative or absolute, --diff given by a relative name (%s) "
                  "meaning the file below the current directory, while same-named reports with other figures lie below the code base root, in the cache "
                  "directories and at the top, and another `.codelimit_cache/codelimit.json` lies in the current directory; "
+                 "round 7: console variants - %d renderings (findings text / Markdown / Markdown with repository x full / not, "
+                 "for 0..25 findings around the cut-off; every fourth also the overview of a pair) on recording consoles, on non-terminals with a height, and on "
+                 "interactive terminals (force_terminal, TERM=xterm-256color, also TERM=dumb) 5..60 lines high and 120 / 250 (thorough 80..1000) columns wide, escape "
+                 "sequences removed, and `codelimit findings` through the CLI entry function in a fresh interpreter whose stdout is a pseudo-terminal with a window of 7..30 (thorough 5..50) lines, "
+                 "judged by the clause as stated (the first k <= 10 longest functions, the announced number = stored - listed EXACTLY); "
                  "non-trivial = distinct diffs with >= 2 current languages, and codebases with more than 10 findings"
                  % (len(pairs), len(dist["findings_by_count"]) and sum(dist["findings_by_count"].values()), dist["commands"], dist.get("histories", 0),
                     dist.get("commands_equal_totals", 0), dist.get("fresh_process_runs", 0), dist.get("width_cases", 0), dist.get("console_widths"),
-                    dist.get("commands_large_figures", 0), sum(dist.get("layouts", {}).values()), ", ".join(DIFF_NAMES))),
+                    dist.get("commands_large_figures", 0), sum(dist.get("layouts", {}).values()), ", ".join(DIFF_NAMES), dist.get("console_variant_renderings", 0))),
         "samples": samples, "exhaustive": False, "distribution": dist,
         "disagreements": dis[:50], "oracle_failures": fails[:50],
         "generated_hashes": {"Gen/Logic.lean": _sha(os.path.join(common.LEAN, "CodeLimit", "Gen", "Logic.lean"))},
@@ -1292,6 +1445,10 @@ def replay(payload):
     elif inp["stream"] == "overview":
         with h4.configured(**cfg_of(inp)):
             f = run_overview_case(inp["cur"], inp["prev"], widths=[inp["width"]] if "width" in inp else ())[3]
+    elif inp["stream"] == "terminal-window":
+        f = run_pty_case(inp["files"], inp["rows"], inp["cols"], inp["full"], inp["fmt"])
+    elif inp["stream"] == "console-variant":
+        f = run_console_variant_case(inp["files"], inp["console"], inp.get("console_label", "console"), inp.get("cur"), inp.get("prev"))[1]
     elif inp["stream"] == "findings":
         f = run_findings_case(inp["files"], cfg_of(inp) or None, inp.get("cfg_label"))[3]
     elif inp["stream"] == "history":
